@@ -1,9 +1,8 @@
 (* C01/Defaults.v — DefaultCapabilities.setValue and the "-owner is always a
-   default" mechanism.  The full statement (every sequence of setValue calls
-   without allowDefaultOwner leaves -owner in the set) is REFUTED on the pinned
-   code: the test `'-owner' not in self.value` uses CapabilitySet.__contains__,
-   which also answers True when the inverse capability `owner` is in the set,
-   so setValue(['owner']) keeps {owner} (finding F25). *)
+   default" mechanism.  The repaired setValue looks for '-owner' among the
+   stored elements (not through CapabilitySet.__contains__, which also answers
+   True for the inverse `owner`), so for EVERY sequence of setValue calls
+   without allowDefaultOwner the set holds -owner and not owner. *)
 From Coq Require Import List NArith ZArith Bool Arith Lia.
 Import ListNotations.
 Require Import Base.Wire Base.PyStr C03.Model C03.Anti C01.Model.
@@ -43,69 +42,102 @@ Proof.
   - rewrite !smem_app, smem_sremove_same, E. split; reflexivity.
 Qed.
 
-Definition owner_entry (cs : cset) : bool := smem ANTIOWNER cs || smem OWNER cs.
 Definition owner_safe (cs : cset) : bool := smem ANTIOWNER cs && negb (smem OWNER cs).
 
-(* one setValue without allowDefaultOwner: -owner OR owner is in the new value *)
-Lemma setValue_entry v cs : setValue v false = Ok cs -> owner_entry cs = true.
+(* ---- CapabilitySet.add never leaves owner next to -owner ---- *)
+Definition excl (cs : cset) : bool := negb (smem OWNER cs && smem ANTIOWNER cs).
+
+Lemma smem_sremove_le c x S0 : smem c (sremove x S0) = true -> smem c S0 = true.
 Proof.
-  unfold setValue, owner_entry. destruct (cs_of_list v) as [S0|e]; cbn [bind]; [|discriminate].
-  unfold cs_contains. rewrite fold_antiowner, invert_antiowner.
-  destruct (smem ANTIOWNER S0) eqn:E1; cbn [bind negb andb].
-  - intro H. inversion H; subst. rewrite E1. reflexivity.
-  - destruct (smem OWNER S0) eqn:E2; cbn [negb andb].
-    + intro H. inversion H; subst. rewrite E2. apply orb_true_r.
-    + intro H. apply add_antiowner in H as [H _]. rewrite H. reflexivity.
+  unfold smem, sremove. induction S0 as [|y S0 IH]; [discriminate|]. cbn [filter existsb].
+  destruct (negb (seq_eqb x y)); cbn [existsb]; intro H.
+  - apply orb_true_iff in H as [H|H]; [rewrite H; reflexivity|]. rewrite (IH H). apply orb_true_r.
+  - rewrite (IH H). apply orb_true_r.
 Qed.
 
-(* the values a caller may give without disturbing the mechanism: those not containing `owner` *)
-Definition no_owner (v : list str) : bool :=
-  match cs_of_list v with Ok S0 => negb (smem OWNER S0) | Raise _ => true end.
-
-Lemma setValue_safe v cs : no_owner v = true -> setValue v false = Ok cs -> owner_safe cs = true.
+Lemma excl_sremove x S0 : excl S0 = true -> excl (sremove x S0) = true.
 Proof.
-  unfold setValue, owner_safe, no_owner. destruct (cs_of_list v) as [S0|e]; cbn [bind]; [|discriminate].
-  intro Hn. apply negb_true_iff in Hn.
-  unfold cs_contains. rewrite fold_antiowner, invert_antiowner.
-  destruct (smem ANTIOWNER S0) eqn:E1; cbn [bind negb andb].
-  - intro H. inversion H; subst. rewrite E1, Hn. reflexivity.
-  - rewrite Hn. cbn [negb andb]. intro H. apply add_antiowner in H as [H1 H2]. rewrite H1, H2. reflexivity.
+  unfold excl. intro H. apply negb_true_iff in H. apply negb_true_iff.
+  destruct (smem OWNER (sremove x S0)) eqn:E1; [|reflexivity].
+  destruct (smem ANTIOWNER (sremove x S0)) eqn:E2; [|reflexivity].
+  apply smem_sremove_le in E1. apply smem_sremove_le in E2. rewrite E1, E2 in H. discriminate.
 Qed.
 
-Definition dom_values (vs : list (list str * bool)) : bool :=
-  forallb (fun va => negb (snd va) && no_owner (fst va)) vs.
+Lemma smem_snoc x S0 c : smem x (S0 ++ [c]) = smem x S0 || seq_eqb x c.
+Proof. rewrite smem_app. cbn [smem existsb]. rewrite orb_false_r. reflexivity. Qed.
 
-(* C01_default_owner_on_domain *)
-Theorem default_owner_on_domain init vs :
-  owner_safe init = true -> dom_values vs = true -> owner_safe (setValues init vs) = true.
+Lemma cs_add_excl S0 c R : excl S0 = true -> cs_add S0 c = Ok R -> excl R = true.
 Proof.
-  unfold setValues. revert init. induction vs as [|[v a] vs IH]; intros init Hi Hd; [exact Hi|].
-  cbn [fold_left]. cbn [dom_values forallb fst snd] in Hd. apply andb_true_iff in Hd as [Hva Hd].
-  apply andb_true_iff in Hva as [Ha Hv]. apply negb_true_iff in Ha. subst a.
-  apply IH; [|exact Hd]. cbn [fst snd].
-  destruct (setValue v false) as [cs|e] eqn:E; [|exact Hi]. eapply setValue_safe; eassumption.
+  unfold cs_add. intro He. destruct (invertCapability (fold c)) as [inv|e] eqn:Ei; cbn [bind]; [|discriminate].
+  pose proof (excl_sremove inv S0 He) as H1.
+  destruct (smem (fold c) (sremove inv S0)); intro H; inversion H; subst; [exact H1|].
+  unfold excl. rewrite !smem_snoc.
+  destruct (seq_eqb OWNER (fold c)) eqn:Eo.
+  - apply seq_eqb_eq in Eo. rewrite <- Eo in Ei. rewrite invert_owner in Ei. inversion Ei; subst inv.
+    rewrite smem_sremove_same. rewrite <- Eo. replace (seq_eqb ANTIOWNER OWNER) with false by reflexivity.
+    rewrite andb_false_r. reflexivity.
+  - destruct (seq_eqb ANTIOWNER (fold c)) eqn:Ea.
+    + apply seq_eqb_eq in Ea. rewrite <- Ea in Ei. rewrite invert_antiowner in Ei. inversion Ei; subst inv.
+      rewrite smem_sremove_same. reflexivity.
+    + rewrite !orb_false_r. exact H1.
 Qed.
 
-(* weaker invariant that does hold for EVERY sequence: -owner or owner stays in the set *)
-Theorem default_owner_entry init vs :
-  owner_entry init = true -> forallb (fun va => negb (snd va)) vs = true -> owner_entry (setValues init vs) = true.
+Lemma fold_add_raise v e :
+  fold_left (fun r c => do acc <- r; cs_add acc c) v (Raise e) = @Raise cset e.
+Proof. induction v as [|c v IH]; [reflexivity|]. cbn [fold_left bind]. exact IH. Qed.
+
+Lemma fold_add_excl v acc R :
+  excl acc = true -> fold_left (fun r c => do acc <- r; cs_add acc c) v (Ok acc) = Ok R -> excl R = true.
 Proof.
-  unfold setValues. revert init. induction vs as [|[v a] vs IH]; intros init Hi Hd; [exact Hi|].
+  revert acc. induction v as [|c v IH]; intros acc He H; cbn [fold_left bind] in H.
+  - inversion H; subst. exact He.
+  - destruct (cs_add acc c) as [acc'|e] eqn:Ea.
+    + eapply IH; [|exact H]. eapply cs_add_excl; eassumption.
+    + rewrite fold_add_raise in H. discriminate.
+Qed.
+
+Lemma cs_of_list_excl v R : cs_of_list v = Ok R -> excl R = true.
+Proof. unfold cs_of_list. apply fold_add_excl. reflexivity. Qed.
+
+(* one setValue without allowDefaultOwner, ANY value list: -owner is in the new value and owner is not *)
+Lemma setValue_safe v cs : setValue v false = Ok cs -> owner_safe cs = true.
+Proof.
+  unfold setValue, owner_safe. destruct (cs_of_list v) as [S0|e] eqn:Ev; cbn [bind]; [|discriminate].
+  pose proof (cs_of_list_excl _ _ Ev) as He. unfold excl in He. apply negb_true_iff in He.
+  destruct (smem ANTIOWNER S0) eqn:E1; cbn [negb andb].
+  - rewrite andb_true_r in He. intro H. injection H as <-. rewrite E1, He. reflexivity.
+  - intro H. apply add_antiowner in H as [H1 H2]. rewrite H1, H2. reflexivity.
+Qed.
+
+Definition no_allow (vs : list (list str * bool)) : bool := forallb (fun va => negb (snd va)) vs.
+
+(* C01_default_owner: every sequence of setValue calls without allowDefaultOwner *)
+Theorem default_owner init vs :
+  owner_safe init = true -> no_allow vs = true -> owner_safe (setValues init vs) = true.
+Proof.
+  unfold setValues, no_allow. revert init. induction vs as [|[v a] vs IH]; intros init Hi Hd; [exact Hi|].
   cbn [fold_left]. cbn [forallb snd] in Hd. apply andb_true_iff in Hd as [Ha Hd]. apply negb_true_iff in Ha. subst a.
   apply IH; [|exact Hd]. cbn [fst snd].
-  destruct (setValue v false) as [cs|e] eqn:E; [|exact Hi]. eapply setValue_entry; eassumption.
+  destruct (setValue v false) as [cs|e] eqn:E; [|exact Hi]. eapply setValue_safe; eassumption.
 Qed.
 
 Definition init_caps : cset := match cs_of_list gen.T01.DEFAULT_CAPS with Ok cs => cs | Raise _ => [] end.
 Lemma init_safe : owner_safe init_caps = true. Proof. vm_compute. reflexivity. Qed.
 
-(* the full statement fails: one setValue(['owner']) from the registered default *)
-Theorem default_owner_refuted :
-  exists vs, forallb (fun va => negb (snd va)) vs = true /\ dom_values vs = false /\
-             smem ANTIOWNER (setValues init_caps vs) = false /\
-             (* ... and then an unknown caller passes the `owner` converter *)
-             holds (Db None false [] (setValues init_caps vs) [] true) OWNER = Ok true.
-Proof. exists [([OWNER], false)]. vm_compute. auto. Qed.
+Corollary default_owner_registered vs :
+  no_allow vs = true -> owner_safe (setValues init_caps vs) = true.
+Proof. apply default_owner. exact init_safe. Qed.
+
+(* the input that broke the pinned code (finding C01.a, repaired): setValue(['owner']) now stores {-owner} *)
+Example former_witness :
+  setValues init_caps [([OWNER], false)] = [ANTIOWNER] /\
+  setValues init_caps [([OWNER; [102;111;111]], false); ([[79;119;110;101;114]], false)] = [ANTIOWNER] /\
+  holds (Db None false [] (setValues init_caps [([OWNER], false)]) [] true) OWNER = Ok false.
+Proof. vm_compute. auto. Qed.
+
+(* with --allow-default-owner the operator may still do it (the property's own exception) *)
+Example allow_default_owner : setValues init_caps [([OWNER], true)] = [OWNER].
+Proof. vm_compute. reflexivity. Qed.
 
 (* hence: with -owner in the default set (and not owner), an unknown caller -- or a secure
    account recognised only by login -- never passes `owner` *)
@@ -125,6 +157,15 @@ Proof.
   - rewrite Hsec, Hh. exact Hc.
 Qed.
 
+(* ... in particular whatever setValue calls configured the default set *)
+Corollary unknown_never_owner_reachable d vs :
+  (d_user d = None \/ exists u, d_user d = Some u /\ u_secure u = true /\ d_hostok d = false) ->
+  no_allow vs = true -> d_defaults d = setValues init_caps vs ->
+  holds d OWNER = Ok false.
+Proof.
+  intros Hu Hv Hd. apply unknown_never_owner; [exact Hu|]. rewrite Hd. apply default_owner_registered. exact Hv.
+Qed.
+
 (* a recognised account that does not hold owner never passes `owner` either, whatever the defaults *)
 Theorem nonowner_never_owner d u :
   d_user d = Some u -> (u_secure u && negb (d_hostok d)) = false -> smem OWNER (u_caps u) = false ->
@@ -138,6 +179,6 @@ Proof.
 Qed.
 
 Example default_owner_nonvacuous :
-  dom_values [([DASH :: ADMIN], false); ([], false); ([[102;111;111]; ANTIOWNER], false)] = true /\
+  no_allow [([DASH :: ADMIN], false); ([], false); ([[102;111;111]; OWNER], false)] = true /\
   setValues init_caps [([DASH :: ADMIN], false); ([], false)] = [ANTIOWNER].
 Proof. vm_compute. auto. Qed.
